@@ -19,7 +19,7 @@ use vm_memory::{GuestMemoryAtomic, GuestMemoryMmap};
 use vmm_sys_util::epoll::EventSet;
 use vmm_sys_util::event::{new_event_consumer_and_notifier, EventConsumer, EventFlag, EventNotifier};
 
-use crate::sched::Sim;
+use crate::sched::{self, Sim};
 use crate::spec::{self, pf};
 
 pub type GM<B> = GuestMemoryAtomic<GuestMemoryMmap<B>>;
@@ -80,6 +80,8 @@ pub struct StubCfg {
     pub fail_update_memory: bool,
     /// handle_event writes one byte into the last page of every guest memory region
     pub touch_memory_on_event: bool,
+    /// handle_event advances the ring's next-available index by one (as processing a request would)
+    pub advance_avail_on_event: bool,
 }
 
 impl Default for StubCfg {
@@ -101,6 +103,7 @@ impl Default for StubCfg {
             add_used_on_event: false,
             fail_update_memory: false,
             touch_memory_on_event: false,
+            advance_avail_on_event: false,
         }
     }
 }
@@ -264,6 +267,12 @@ where
                 }
             }
         }
+        if self.cfg.advance_avail_on_event {
+            if let Some(v) = vrings.get(device_event as usize) {
+                sched::point("backend.processing");
+                v.set_queue_next_avail(v.queue_next_avail().wrapping_add(1));
+            }
+        }
         if self.cfg.add_used_on_event {
             if let Some(v) = vrings.get(device_event as usize) {
                 let _ = v.add_used(0, 0x10);
@@ -393,6 +402,9 @@ pub fn close_leaked_exit_consumers(log: &Arc<Mutex<Log>>) {
 
 pub struct Vmm {
     pub fe: Frontend,
+    /// a second handle on the same connection, for messages the Frontend API cannot express
+    /// (e.g. SET_VRING_CALL without a descriptor); only used between two API calls
+    pub raw: UnixStream,
 }
 
 /// Connect a VMM to `listener` and start the daemon on that connection.
@@ -404,8 +416,11 @@ where
     let sock = UnixStream::connect(path).map_err(|e| format!("connect: {e}"))?;
     sim.label_fd(sock.as_raw_fd(), "vmm");
     daemon.start(listener)?;
+    let raw = sock.try_clone().map_err(|e| format!("clone: {e}"))?;
+    sim.label_fd(raw.as_raw_fd(), "vmm");
     Ok(Vmm {
         fe: Frontend::from_stream(sock, maxq),
+        raw,
     })
 }
 
